@@ -918,6 +918,66 @@ pub fn run(ctx: &Ctx) -> i32 {
     });
     rep.absorb("condition_strings", r);
 
+    // ---- Part 3b: trivia inside the condition (spaces, tabs, comments, line splices at every token boundary)
+    {
+        const TRIVIA: &[&str] = &["", "  ", "\t", "/*c*/", " /* c */ ", "\\\n", " \\\n ", "\\\r\n"];
+        let mut base: Vec<CondCase> = Vec::new();
+        let mut d = Vec::new();
+        // every condition with one and two operators over the small operands, with and without a prefix, plus groups
+        for (n_ops, with_prefix) in [(1usize, false), (1, true), (2, false)] {
+            let mut radices: Vec<u64> = Vec::new();
+            for i in 0..=n_ops {
+                if i > 0 {
+                    radices.push(OPS.len() as u64);
+                }
+                if with_prefix {
+                    radices.push(PREFIXES.len() as u64);
+                }
+                radices.push(OPERANDS.len() as u64);
+            }
+            let total: u64 = radices.iter().product();
+            let stride = if n_ops == 2 { ctx.pick(37u64, 5u64) } else { 1 };
+            let mut idx = 0;
+            while idx < total {
+                crate::util::decode(idx, &radices, &mut d);
+                base.push(build_cond(OPERANDS, &d, n_ops, with_prefix, None));
+                if n_ops == 2 {
+                    base.push(build_cond(OPERANDS, &d, n_ops, with_prefix, Some((1, 2))));
+                }
+                idx += stride;
+            }
+        }
+        // boundaries: the single spaces of the text and the positions next to parentheses and `!`
+        let nt = TRIVIA.len() as u64;
+        let r = run_par(ctx, base.len() as u64 * nt, 256, |idx, acc| {
+            let c = &base[(idx / nt) as usize];
+            let t = TRIVIA[(idx % nt) as usize];
+            let bytes = c.text.as_bytes();
+            // token boundaries of the condition text (never inside `defined(M)` / `defined U`, which rssl keeps as a unit)
+            let mut cuts: Vec<usize> = Vec::new();
+            for i in 1..bytes.len() {
+                let (a, b) = (bytes[i - 1] as char, bytes[i] as char);
+                let inside_defined = c.text[..i].rfind("defined").map(|p| !c.text[p..i].contains(')') && (c.text[p..i].contains('(') || c.text[p..i].len() <= 8)).unwrap_or(false);
+                if inside_defined {
+                    continue;
+                }
+                if a == ' ' || b == ' ' || a == '(' || b == ')' || b == '(' || a == ')' || (a == '!' && b != '=') {
+                    cuts.push(i);
+                }
+            }
+            for cut in cuts {
+                let text = format!("{}{}{}", &c.text[..cut], t, &c.text[cut..]);
+                if t.is_empty() && text == c.text && cut != 1 {
+                    continue;
+                }
+                let cc = CondCase { text, toks: c.toks.clone(), toks_empty: None };
+                check_cond_env(&cc, &c.toks, "#define M 2", "kind: cond", acc);
+            }
+        });
+        rep.cov("condition_trivia_kinds", Json::Int(TRIVIA.len() as i64));
+        rep.absorb("condition_strings_with_trivia", r);
+    }
+
     // ---- Part 4: other directives inside unselected branches
     let ctxs = contexts();
     let total = (ctxs.len() * EFFECTS.len()) as u64;
@@ -984,7 +1044,15 @@ pub fn replay(ctx: &Ctx, body: &str) -> i32 {
             // re-tokenise the text with the reference tokenizer
             let text = rest.trim();
             let mut toks = Vec::new();
-            let spaced = text.replace('(', " ( ").replace(')', " ) ").replace("!!", " ! ! ").replace("defined ( M )", "defined(M)").replace("defined ( U )", "defined(U)");
+            // trivia inserted by the trivia space is removed for the reference tokenizer only
+            let mut cleaned = text.replace("\\\r\n", " ").replace("\\\n", " ").replace('\t', " ");
+            while let (Some(a), Some(b)) = (cleaned.find("/*"), cleaned.find("*/")) {
+                if b < a {
+                    break;
+                }
+                cleaned.replace_range(a..b + 2, " ");
+            }
+            let spaced = cleaned.replace('(', " ( ").replace(')', " ) ").replace("!!", " ! ! ").replace("defined ( M )", "defined(M)").replace("defined ( U )", "defined(U)");
             let mut it = spaced.split_whitespace().peekable();
             while let Some(w) = it.next() {
                 let w = w.to_string();
